@@ -10,9 +10,11 @@ V = os.path.dirname(os.path.dirname(os.path.abspath(__file__)))
 pid, wt, k = sys.argv[1], sys.argv[2], sys.argv[3]
 tier = "quick"
 checks = [pid]
+outname = None
 for i, a in enumerate(sys.argv):
     if a == "--tier": tier = sys.argv[i + 1]
     if a == "--checks": checks = sys.argv[i + 1].split(",")
+    if a == "--name": outname = sys.argv[i + 1]
 out = os.path.join(wt, "_out")
 diff = os.path.join(out, "m%s.diff" % k)
 demo = os.path.join(out, "m%s_demo.py" % k)
@@ -37,12 +39,12 @@ r_mut = run(["/venv/bin/python", demo], cwd=wt, env=env)
 res = {}
 for c in checks:
     t0 = time.time()
-    r = run([os.path.join(V, "check"), c, "--tier", tier], cwd=V, env=dict(os.environ, A5_REPO=wt))
+    r = run([os.path.join(V, "check"), c, "--tier", tier], cwd=V, env=dict(os.environ, A5_REPO=wt, VERIF_EVIDENCE_DIR="/tmp/verif-seeded-evidence"))
     res[c] = {"exit": r.returncode, "wall_s": round(time.time() - t0, 1),
               "violations": [l for l in r.stdout.splitlines() if l.startswith("VIOLATION") or l.startswith("  signature")],
               "tail": r.stdout.splitlines()[-6:], "stderr_tail": r.stderr.splitlines()[-5:]}
 git("checkout", "--", "a5")
-d = os.path.join(V, "seeded", "%s-m%s" % (pid, k))
+d = os.path.join(V, "seeded", outname or "%s-m%s" % (pid, k))
 os.makedirs(d, exist_ok=True)
 try:
     old = json.load(open(os.path.join(d, "meta.json")))
